@@ -417,7 +417,11 @@ theorem sim_evalInt (fuel : Nat) :
       cases nd with
       | port => exact sim_fail _
       | command _ _ => exact sim_fail _
+      | boolean _ _ _ => exact sim_fail _
       | integer pv cs =>
+        refine sim_weaken (ih pv) (fun v _ => inSelRange_trivial ?_ v)
+        unfold selRange; rw [hn]
+      | enumeration pv vals =>
         refine sim_weaken (ih pv) (fun v _ => inSelRange_trivial ?_ v)
         unfold selRange; rw [hn]
       | reg r =>
@@ -462,10 +466,14 @@ theorem sim_setInt (hD : Declared p g) (fuel : Nat) :
       cases nd with
       | port => exact sim_fail _
       | command _ _ => exact sim_fail _
+      | boolean _ _ _ => exact sim_fail _
       | integer pv cs =>
         dsimp only
         refine sim_bind (sim_invBy n) (fun _ _ => ?_)
         exact sim_bind (ih pv v) (fun _ _ => sim_forEachM (fun c => ih c v) cs)
+      | enumeration pv vals =>
+        dsimp only
+        exact sim_ite (sim_bind (sim_invBy n) (fun _ _ => ih pv v)) (sim_fail _)
       | reg r =>
         dsimp only
         cases hk : r.kind with
@@ -502,6 +510,13 @@ theorem sim_opValue (fuel : Nat) (n : NodeId) :
     | integer pv cs =>
       dsimp only
       exact sim_bind (sim_evalInt fuel n) (fun v _ => sim_pure _ trivial)
+    | enumeration pv vals =>
+      dsimp only
+      exact sim_bind (sim_evalInt fuel n) (fun v _ => sim_pure _ trivial)
+    | boolean pv on off =>
+      dsimp only
+      refine sim_bind (sim_evalInt fuel pv) (fun v _ => ?_)
+      exact sim_ite (sim_pure _ trivial) (sim_ite (sim_pure _ trivial) (sim_fail _))
     | reg r =>
       dsimp only
       cases hk : r.kind with
@@ -537,6 +552,21 @@ theorem sim_opSetValue (hD : Declared p g) (fuel : Nat) (n : NodeId) (v : Val) :
       | int i =>
         dsimp only
         exact sim_bind (sim_setInt hD fuel n i) (fun _ _ => sim_pure _ trivial)
+      | _ => exact sim_fail _
+    | enumeration pv vals =>
+      dsimp only
+      cases v with
+      | int i =>
+        dsimp only
+        exact sim_bind (sim_setInt hD fuel n i) (fun _ _ => sim_pure _ trivial)
+      | _ => exact sim_fail _
+    | boolean pv on off =>
+      dsimp only
+      cases v with
+      | bool b =>
+        dsimp only
+        refine sim_bind (sim_invBy n) (fun _ _ => ?_)
+        exact sim_bind (sim_setInt hD fuel pv _) (fun _ _ => sim_pure _ trivial)
       | _ => exact sim_fail _
     | reg r =>
       dsimp only
